@@ -248,3 +248,271 @@ Proof.
   unfold T. apply Forall_pick; [|rewrite LR; exact HFc].
   rewrite <- (rows_of_of_rows R Hok). eapply rows_of_nodup; eassumption.
 Qed.
+
+(* ================================================================ scipy.sparse.csr_matrix(dense) *)
+Definition row_nz (row : list Z) : srow := (map fst (row_nonzero row), map snd (row_nonzero row)).
+
+Lemma csr_of_dense_rows d : csr_of_dense d = of_rows (map row_nz d).
+Proof.
+  unfold csr_of_dense, of_rows. f_equal.
+  - f_equal. f_equal. rewrite !map_map. apply map_ext. intros row.
+    unfold rlen, row_nz. cbn [fst]. rewrite map_length. reflexivity.
+  - rewrite !map_map. reflexivity.
+  - rewrite !map_map. reflexivity.
+Qed.
+
+Lemma find_nz row : forall a x,
+  match find (fun p : nat * Z => fst p =? x)
+             (filter (fun p => negb (snd p =? 0)%Z) (combine (seq a (length row)) row)) with
+  | Some p => snd p | None => 0%Z end
+  = if a <=? x then nth (x - a) row 0%Z else 0%Z.
+Proof.
+  induction row as [|v t IH]; intros a x.
+  - cbn. destruct (a <=? x); destruct (x - a); reflexivity.
+  - cbn [length seq combine filter snd]. destruct (v =? 0)%Z eqn:Ev; cbn [negb].
+    + rewrite IH. apply Z.eqb_eq in Ev. subst v.
+      destruct (Nat.leb_spec a x) as [E1|E1]; destruct (Nat.leb_spec (S a) x) as [E2|E2]; try lia.
+      * replace (x - a) with (S (x - S a)) by lia. reflexivity.
+      * replace (x - a) with 0 by lia. reflexivity.
+    + cbn [find fst]. destruct (a =? x) eqn:Eax.
+      * apply Nat.eqb_eq in Eax. subst x. cbn [snd]. rewrite Nat.leb_refl, Nat.sub_diag. reflexivity.
+      * apply Nat.eqb_neq in Eax. rewrite IH.
+        destruct (Nat.leb_spec a x) as [E1|E1]; destruct (Nat.leb_spec (S a) x) as [E2|E2]; try lia.
+        replace (x - a) with (S (x - S a)) by lia. reflexivity.
+Qed.
+
+Lemma nodup_map_filter {A B} (g : A -> B) (f : A -> bool) l :
+  NoDup (map g l) -> NoDup (map g (filter f l)).
+Proof.
+  induction l as [|x t IH]; intros H; [constructor|]. cbn in H. inversion H as [|? ? Hn Ht]; subst.
+  cbn [filter]. destruct (f x); [|apply IH; exact Ht]. cbn [map]. constructor; [|apply IH; exact Ht].
+  intros Hin. apply Hn. apply in_map_iff in Hin. destruct Hin as (y & Ey & Hy).
+  apply filter_In in Hy. apply in_map_iff. exists y. tauto.
+Qed.
+
+Lemma row_nz_ok row : row_ok (row_nz row).
+Proof. unfold row_ok, row_nz. cbn [fst snd]. rewrite !map_length. reflexivity. Qed.
+
+Lemma row_nz_cols row : cols_ok (length row) (row_nz row).
+Proof.
+  unfold cols_ok, row_nz, row_nonzero. cbn [fst]. apply Forall_forall. intros c Hc.
+  apply in_map_iff in Hc. destruct Hc as (p & <- & Hp). apply filter_In in Hp. destruct Hp as [Hp _].
+  destruct p as [i v]. apply in_combine_l in Hp. apply in_seq in Hp. cbn. lia.
+Qed.
+
+Lemma row_nz_nodup row : nodup_row (row_nz row).
+Proof.
+  unfold nodup_row, row_nz, row_nonzero. cbn [fst]. apply nodup_map_filter.
+  rewrite map_fst_combine by (rewrite seq_length; reflexivity). apply seq_NoDup.
+Qed.
+
+Lemma dense_row_nz row : dense_row (length row) (row_nz row) = row.
+Proof.
+  unfold dense_row. transitivity (map (fun x => nth x row 0%Z) (seq 0 (length row))); [|apply map_nth_all].
+  apply map_ext. intros x.
+  rewrite row_value_find; [| exact (row_nz_nodup row) | exact (row_nz_ok row)].
+  unfold row_nz. cbn [fst snd]. rewrite combine_fst_snd. unfold row_nonzero.
+  rewrite (find_nz row 0 x). cbn [Nat.leb]. rewrite Nat.sub_0_r. reflexivity.
+Qed.
+
+(* ================================================================ amalgamate: joining pieces *)
+Lemma amalgamate_csr_rows Rs :
+  Forall (Forall row_ok) Rs ->
+  amalgamate_csr (map of_rows Rs) (length (concat Rs)) = Ok (of_rows (concat Rs)).
+Proof.
+  intros H. unfold amalgamate_csr. rewrite merge_csr_rows by exact H. cbn [bind].
+  unfold of_rows at 1. cbn [ptr length]. rewrite cumsum_length, map_length, Nat.eqb_refl. reflexivity.
+Qed.
+
+Definition rows_inv (nc : nat) (R : list srow) : Prop :=
+  Forall row_ok R /\ Forall (cols_ok nc) R /\ Forall nodup_row R.
+
+Lemma rows_inv_concat nc Rs : Forall (rows_inv nc) Rs -> rows_inv nc (concat Rs).
+Proof.
+  intros H. unfold rows_inv. repeat split; apply Forall_concat;
+    (eapply Forall_impl; [|exact H]); unfold rows_inv; tauto.
+Qed.
+
+Lemma concat_length_lens {A} (ll : list (list A)) : length (concat ll) = sum_list (map (@length A) ll).
+Proof. unfold sum_list. induction ll as [|l t IH]; cbn; [reflexivity|]. rewrite app_length, IH. reflexivity. Qed.
+
+Lemma pieces_view nc pieces ns :
+  Forall2 (fun p n => wf_csr p n nc /\ no_dup_minor p) pieces ns ->
+  exists Rs, pieces = map of_rows Rs /\ ns = map (@length _) Rs /\ Forall (rows_inv nc) Rs.
+Proof.
+  induction 1 as [|p n pieces ns [W ND] _ IH]; [exists []; repeat split; constructor|].
+  destruct IH as (Rs & -> & -> & HI).
+  destruct (rows_view p n nc W ND) as (R & -> & LR & Hok & Hc & HN & _).
+  exists (R :: Rs). cbn [map]. rewrite LR. repeat split. constructor; [|exact HI]. repeat split; assumption.
+Qed.
+
+Lemma combine_map_same {A B C} (f : A -> B) (g : A -> C) l :
+  combine (map f l) (map g l) = map (fun x => (f x, g x)) l.
+Proof. induction l as [|x t IH]; cbn; [reflexivity|]. rewrite IH. reflexivity. Qed.
+
+(* amalgamate_csr_to_x: pieces of n_k rows each are joined into one well-formed matrix of
+   sum n_k rows whose dense view is the concatenation of the dense views *)
+Theorem amalgamate_csr_exact pieces ns nc :
+  Forall2 (fun p n => wf_csr p n nc /\ no_dup_minor p) pieces ns ->
+  exists out, amalgamate_csr pieces (sum_list ns) = Ok out /\
+    wf_csr out (sum_list ns) nc /\ no_dup_minor out /\
+    dense_of out (sum_list ns) nc =
+    concat (map (fun pn => dense_of (fst pn) (snd pn) nc) (combine pieces ns)) /\
+    dense_of out (sum_list ns) nc =
+    amalgamate_dense (map (fun pn => dense_of (fst pn) (snd pn) nc) (combine pieces ns)).
+Proof.
+  intros H. destruct (pieces_view nc pieces ns H) as (Rs & -> & -> & HI).
+  destruct (rows_inv_concat nc Rs HI) as (Hok & Hc & HN).
+  assert (HokRs : Forall (Forall row_ok) Rs) by (eapply Forall_impl; [|exact HI]; unfold rows_inv; tauto).
+  rewrite <- concat_length_lens.
+  exists (of_rows (concat Rs)). split; [apply amalgamate_csr_rows; exact HokRs|].
+  split; [apply of_rows_wf; assumption|].
+  split; [eapply of_rows_no_dup; eassumption|].
+  assert (E : dense_of (of_rows (concat Rs)) (length (concat Rs)) nc =
+              concat (map (fun pn => dense_of (fst pn) (snd pn) nc)
+                          (combine (map of_rows Rs) (map (@length _) Rs)))).
+  { rewrite dense_of_of_rows by assumption. rewrite concat_map. f_equal.
+    rewrite combine_map_same, map_map. apply map_ext_in. intros R HR. cbn [fst snd].
+    rewrite Forall_forall in HI. destruct (HI R HR) as (H1 & H2 & H3).
+    symmetry. apply dense_of_of_rows; assumption. }
+  split; exact E.
+Qed.
+
+(* ================================================================ amalgamate_h5ad on sources *)
+Lemma res_all_ok {A} (l : list (res A)) ys : Forall2 (fun x y => x = Ok y) l ys -> res_all l = Ok ys.
+Proof. induction 1 as [|x y l ys -> _ IH]; cbn; [reflexivity|]. rewrite IH. reflexivity. Qed.
+
+Lemma source_piece nc s :
+  source_ok nc s ->
+  exists T, piece_sparse s = Ok (of_rows T) /\ rows_inv nc T /\
+            map (dense_row nc) T = source_rows nc s /\ piece_dense s = Ok (source_rows nc s).
+Proof.
+  destruct s as [m nc' rows | d nr rows]; cbn [source_ok piece_sparse piece_dense source_rows].
+  - intros (-> & W & ND & Hne & NDr & HF).
+    set (nr := length (ptr m) - 1) in *.
+    rewrite (csr_get_batch_exact m nr nc rows W ND Hne NDr HF).
+    destruct (rows_view m nr nc W ND) as (R & -> & LR & Hok & Hc & HN & ED).
+    rewrite <- LR in HF.
+    exists (map (fun r => nth r R rnil) rows).
+    split; [apply load_disjoint_rows; assumption|].
+    split; [repeat split; apply Forall_pick; assumption|].
+    split; [|reflexivity]. rewrite ED. apply pick_dense_rows. exact HF.
+  - intros (HL & HR & Hne & NDr & HF).
+    rewrite (dense_get_batch_exact d nr rows HL Hne NDr HF). cbn [bind].
+    set (b := map (fun r => nth r d []) rows).
+    assert (Hb : Forall (fun row => length row = nc) b).
+    { unfold b. apply Forall_pick; [exact HR | rewrite HL; exact HF]. }
+    exists (map row_nz b). split; [rewrite csr_of_dense_rows; reflexivity|].
+    split.
+    + repeat split; apply Forall_forall; intros r Hr; apply in_map_iff in Hr; destruct Hr as (row & <- & Hrow).
+      * apply row_nz_ok.
+      * rewrite Forall_forall in Hb. rewrite <- (Hb row Hrow). apply row_nz_cols.
+      * apply row_nz_nodup.
+    + split; [|reflexivity]. rewrite map_map. rewrite <- (map_id b) at 2. apply map_ext_in.
+      intros row Hrow. rewrite Forall_forall in Hb. rewrite <- (Hb row Hrow). apply dense_row_nz.
+Qed.
+
+Lemma sources_view nc srcs :
+  Forall (source_ok nc) srcs ->
+  exists Ts, Forall2 (fun x y => x = Ok y) (map piece_sparse srcs) (map of_rows Ts) /\
+             Forall (rows_inv nc) Ts /\
+             map (map (dense_row nc)) Ts = map (source_rows nc) srcs /\
+             Forall2 (fun x y => x = Ok y) (map piece_dense srcs) (map (source_rows nc) srcs).
+Proof.
+  induction 1 as [|s srcs Hs _ IH]; [exists []; repeat split; constructor|].
+  destruct IH as (Ts & I1 & I2 & I3 & I4). destruct (source_piece nc s Hs) as (T & P1 & P2 & P3 & P4).
+  exists (T :: Ts). cbn [map]. split; [constructor; assumption|]. split; [constructor; assumption|].
+  split; [rewrite P3, I3; reflexivity | constructor; assumption].
+Qed.
+
+(* amalgamate_h5ad: the output is the concatenation, source after source, of the selected
+   rows of each source in the requested order; the dense destination holds exactly that
+   matrix and the sparse destination is a well-formed CSR encoding of it *)
+Theorem amalgamate_exact srcs nc :
+  Forall (source_ok nc) srcs ->
+  let D := concat (map (source_rows nc) srcs) in
+  amalgamate_to_dense srcs = Ok D /\
+  exists out, amalgamate_to_csr srcs (length D) = Ok out /\
+    wf_csr out (length D) nc /\ no_dup_minor out /\ dense_of out (length D) nc = D.
+Proof.
+  intros H. cbn zeta. destruct (sources_view nc srcs H) as (Ts & I1 & I2 & I3 & I4).
+  split.
+  - unfold amalgamate_to_dense. rewrite (res_all_ok _ _ I4). reflexivity.
+  - destruct (rows_inv_concat nc Ts I2) as (Hok & Hc & HN).
+    assert (HokTs : Forall (Forall row_ok) Ts) by (eapply Forall_impl; [|exact I2]; unfold rows_inv; tauto).
+    assert (ED : concat (map (source_rows nc) srcs) = map (dense_row nc) (concat Ts)).
+    { rewrite <- I3. symmetry. apply concat_map. }
+    rewrite ED, map_length.
+    exists (of_rows (concat Ts)). unfold amalgamate_to_csr. rewrite (res_all_ok _ _ I1). cbn [bind].
+    split; [apply amalgamate_csr_rows; exact HokTs|].
+    split; [apply of_rows_wf; assumption|].
+    split; [eapply of_rows_no_dup; eassumption|].
+    apply dense_of_of_rows; assumption.
+Qed.
+
+(* the decoded sources are what the wire decoders of 1305 / 1306 compute *)
+Lemma sx_source_sparse_eq x : sx_source_sparse x = option_map piece_sparse (sx_source x).
+Proof.
+  destruct x as [z|l]; [reflexivity|].
+  destruct l as [|a [|b [|c [|d [|e t]]]]]; try reflexivity; destruct a as [z|?]; try reflexivity.
+  - destruct z as [|p|p]; try reflexivity; destruct p; reflexivity.
+  - destruct z as [|p|p]; try reflexivity; destruct p; reflexivity.
+  - destruct z as [|p|p]; try reflexivity; destruct p; reflexivity.
+  - destruct z as [|p|p]; try reflexivity.
+    + cbn. destruct (sx_comp b), (sx_nat c), (sx_Lnat d); reflexivity.
+    + destruct p; try reflexivity. cbn. destruct (sx_LLZ b), (sx_nat c), (sx_Lnat d); reflexivity.
+  - destruct z as [|p|p]; try reflexivity; destruct p; reflexivity.
+Qed.
+
+Lemma sx_source_dense_eq x : sx_source_dense x = option_map piece_dense (sx_source x).
+Proof.
+  destruct x as [z|l]; [reflexivity|].
+  destruct l as [|a [|b [|c [|d [|e t]]]]]; try reflexivity; destruct a as [z|?]; try reflexivity.
+  - destruct z as [|p|p]; try reflexivity; destruct p; reflexivity.
+  - destruct z as [|p|p]; try reflexivity; destruct p; reflexivity.
+  - destruct z as [|p|p]; try reflexivity; destruct p; reflexivity.
+  - destruct z as [|p|p]; try reflexivity.
+    + cbn. destruct (sx_comp b), (sx_nat c), (sx_Lnat d); reflexivity.
+    + destruct p; try reflexivity. cbn. destruct (sx_LLZ b), (sx_nat c), (sx_Lnat d); reflexivity.
+  - destruct z as [|p|p]; try reflexivity; destruct p; reflexivity.
+Qed.
+
+Lemma opt_all_option_map {A B C} (g : A -> option B) (f : B -> C) (h : A -> option C) l :
+  (forall x, h x = option_map f (g x)) ->
+  opt_all (map h l) = option_map (map f) (opt_all (map g l)).
+Proof.
+  intros H. induction l as [|x t IH]; [reflexivity|]. cbn [map opt_all]. rewrite H.
+  destruct (g x) as [b|]; [|reflexivity]. cbn [option_map]. rewrite IH.
+  destruct (opt_all (map g t)); reflexivity.
+Qed.
+
+(* the entry points 1305 / 1306 driven by the correspondence check run exactly
+   amalgamate_to_csr / amalgamate_to_dense on the decoded sources *)
+Theorem run_amalgamate_sparse_decoded srcs nr ss n :
+  sx_list sx_source srcs = Some ss -> sx_nat nr = Some n ->
+  run_amalgamate_sparse (L [srcs; nr]) = of_res of_comp (amalgamate_to_csr ss n).
+Proof.
+  intros H1 H2. unfold run_amalgamate_sparse. rewrite H2.
+  destruct srcs as [z|l]; [discriminate|]. cbn [sx_list] in *.
+  rewrite (opt_all_option_map sx_source piece_sparse sx_source_sparse l sx_source_sparse_eq).
+  rewrite H1. reflexivity.
+Qed.
+
+Theorem run_amalgamate_dense_decoded srcs ss :
+  sx_list sx_source srcs = Some ss ->
+  run_amalgamate_dense srcs = of_res of_dense (amalgamate_to_dense ss).
+Proof.
+  intros H1. unfold run_amalgamate_dense.
+  destruct srcs as [z|l]; [discriminate|]. cbn [sx_list] in *.
+  rewrite (opt_all_option_map sx_source piece_dense sx_source_dense l sx_source_dense_eq).
+  rewrite H1. reflexivity.
+Qed.
+
+Theorem run_amalgamate_decoded srcs nr ss n :
+  sx_list sx_source srcs = Some ss -> sx_nat nr = Some n ->
+  run_amalgamate_sparse (L [srcs; nr]) = of_res of_comp (amalgamate_to_csr ss n) /\
+  run_amalgamate_dense srcs = of_res of_dense (amalgamate_to_dense ss).
+Proof.
+  intros H1 H2.
+  exact (conj (run_amalgamate_sparse_decoded srcs nr ss n H1 H2) (run_amalgamate_dense_decoded srcs ss H1)).
+Qed.
